@@ -418,6 +418,7 @@ func off[S any, F any](s *S, f *F) uintptr { return uintptr(unsafe.Pointer(f)) -
             self.gen_c03(st, L)
             self.gen_c01(st, L)
             self.gen_by_entry(st, L)
+            self.gen_gc(st, L)
             self.gen_c02(st, L)
             self.gen_c04(st, L)
         for st in self.wides:
@@ -697,6 +698,54 @@ func off[S any, F any](s *S, f *F) uintptr { return uintptr(unsafe.Pointer(f)) -
             self.w('\trt.CheckOptic(%s)' % self.optic_lit('C01', st, e, 'l2.Get(s)', 'l2.Put(s, unbox[%s](v))' % T))
             self.w('\trt.CheckOptic(%s)' % self.optic_lit('C01', st, e, 'rf2.Gett(s)', 'unbox[*%s](rf2.Putt(s, unbox[%s](v)))' % (S, T)))
             self.case_end('C01/%s/wide/%d' % (S, i), True)
+
+    # values that live on the heap and are recognisable as number i: (constructor body, check body) per focus type
+    GCVALS = {
+        '*int':           ('p := new(int)\n\t\t*p = i\n\t\treturn p', 'p := v.(*int)\n\t\treturn p != nil && *p == i'),
+        '*string':        ('s := fmt.Sprint("gc-", i)\n\t\treturn &s', 'p := v.(*string)\n\t\treturn p != nil && *p == fmt.Sprint("gc-", i)'),
+        'string':         ('return fmt.Sprint("gc-", i)', 'return v.(string) == fmt.Sprint("gc-", i)'),
+        'MyStr':          ('return MyStr(fmt.Sprint("gc-", i))', 'return string(v.(MyStr)) == fmt.Sprint("gc-", i)'),
+        'xa.Str':         ('return xa.Str(fmt.Sprint("gc-", i))', 'return string(v.(xa.Str)) == fmt.Sprint("gc-", i)'),
+        '[]byte':         ('return []byte(fmt.Sprint("gc-", i))', 'return string(v.([]byte)) == fmt.Sprint("gc-", i)'),
+        'MyBytes':        ('return MyBytes(fmt.Sprint("gc-", i))', 'return string(v.(MyBytes)) == fmt.Sprint("gc-", i)'),
+        '[]int':          ('return []int{i, -i, i}', 'x := v.([]int)\n\t\treturn len(x) == 3 && x[0] == i && x[1] == -i && x[2] == i'),
+        '[2]string':      ('return [2]string{fmt.Sprint("gc-", i), fmt.Sprint("cg-", i)}', 'x := v.([2]string)\n\t\treturn x[0] == fmt.Sprint("gc-", i) && x[1] == fmt.Sprint("cg-", i)'),
+        '[33]string':     ('var a [33]string\n\t\tfor k := range a {\n\t\t\ta[k] = fmt.Sprint("gc-", i, "-", k)\n\t\t}\n\t\treturn a',
+                           'a := v.([33]string)\n\t\tfor k := range a {\n\t\t\tif a[k] != fmt.Sprint("gc-", i, "-", k) {\n\t\t\t\treturn false\n\t\t\t}\n\t\t}\n\t\treturn true'),
+        'map[string]int': ('return map[string]int{"id": i, fmt.Sprint("k", i): -i}', 'm := v.(map[string]int)\n\t\treturn len(m) == 2 && m["id"] == i && m[fmt.Sprint("k", i)] == -i'),
+        'any':            ('p := new([3]int)\n\t\t*p = [3]int{i, -i, i}\n\t\treturn any(p)', 'p, ok := v.(*[3]int)\n\t\treturn ok && p != nil && *p == [3]int{i, -i, i}'),
+        'error':          ('return fmt.Errorf("gc-%d", i)', 'e, ok := v.(error)\n\t\treturn ok && e != nil && e.Error() == fmt.Sprint("gc-", i)'),
+        'fmt.Stringer':   ('return strImpl(fmt.Sprint("gc-", i))', 's, ok := v.(fmt.Stringer)\n\t\treturn ok && s != nil && s.String() == strImpl(fmt.Sprint("gc-", i)).String()'),
+        'chan int':       ('c := make(chan int, 1)\n\t\tc <- i\n\t\treturn c', 'c := v.(chan int)\n\t\tif c == nil || len(c) != 1 {\n\t\t\treturn false\n\t\t}\n\t\tx := <-c\n\t\tc <- x\n\t\treturn x == i'),
+    }
+
+    def gen_gc(self, st, L):
+        """hand-over of pointer-holding values through lens and reflector while the collector runs"""
+        S = st.name
+        cand = [e for e in L if not e.crossing and ok_name(e.key()) and self.resolve_name(L, e.key()) is e
+                and ((e.f.struct is None and e.gotype() in self.GCVALS) or (e.f.struct is not None and e.f.ptr))]
+        self.r.shuffle(cand)
+        for n, e in enumerate(cand[:3]):
+            T = e.gotype()
+            k = e.key()
+            if e.f.struct is not None:
+                E = e.f.struct.name
+                mk = 'p := new(%s)\n\t\tfill_%s(p, i)\n\t\treturn p' % (E, E)
+                ck = 'p := v.(*%s)\n\t\tif p == nil {\n\t\t\treturn false\n\t\t}\n\t\tq := new(%s)\n\t\tfill_%s(q, i)\n\t\treturn rt.Eq(*p, *q)' % (E, E, E)
+            else:
+                mk, ck = self.GCVALS[T]
+            fam = 'ForProduct1' if n % 2 == 0 else 'ForSpectrum1'
+            req = 'hand-over through %s[%s, %s](%s) under garbage collection' % (fam, S, T, k)
+            self.case_begin('C01', 'gc-handover/%s' % ('lens' if fam == 'ForProduct1' else 'reflector'), st, req, 'the value put is the value got, however the collector runs')
+            if fam == 'ForProduct1':
+                self.w('\tvar l optics.Lens[%s, %s]' % (S, T))
+                get, put = 'l.Get(s)', 'l.Put(s, unbox[%s](v))' % T
+            else:
+                self.w('\tvar l optics.Reflector[%s]' % T)
+                get, put = 'l.Gett(s)', 'unbox[*%s](l.Putt(s, unbox[%s](v)))' % (S, T)
+            self.w('\tif pn, msg := rt.Derive(func() { l = optics.%s[%s, %s](%s) }); pn {\n\t\trt.Refused("C01", c, msg)\n\t\trt.End(c, %s, true)\n\t\treturn\n\t}' % (fam, S, T, q(k), q(req)))
+            self.w('\trt.GCHandover(%s, *new(%s), func(i int) any {\n\t\t%s\n\t}, func(v any, i int) bool {\n\t\t%s\n\t})' % (self.optic_lit('C01', st, e, get, put), T, mk, ck))
+            self.case_end('C01/%s/%s' % (S, req), True)
 
     def gen_by_entry(self, st, L):
         """NewLens / NewReflector applied to the i-th entry of the unfolding focus that very entry — also for
